@@ -133,11 +133,12 @@ def _c10_plan(tier, seed):
 
 def _c10_lists(tier, seed):
     quick = tier == "quick"
-    c = props_cl.consts(3 if quick else 4, 2 if not quick else 1, lists=2, ops={"a", "r", "v", "cc", "mc", "ca", "ma", "s", "d", "j"} if quick else {"a", "i", "r", "v", "o", "cc", "mc", "ca", "ma", "s", "d", "j"},
+    c = props_cl.consts(4, 2 if not quick else 1, lists=2, ops={"a", "r", "v", "o", "cc", "ca", "ma", "s", "d"} if quick else {"a", "i", "r", "v", "o", "cc", "mc", "ca", "ma", "s", "d", "j"},
                         nest={"a", "r"} if not quick else set(), jump=(0,))
     return {"interp": "harness/cl_interp.cpp", "trace_module": "TraceCL",
             "models": [{"module": "CLImpl", "tag": "two-lists", "constants": c, "invariants": props_cl.INV, "heap": "16g"}],
-            "worlds": [props_cl.world("cl_single_fn", 0, 0), props_cl.world("cl_multi_cb", 1, 1, fraction=0.2, fill="0xFF")],
+            # (quick: four nodes so that lists of two callbacks get copied - a copy's back links matter only from the second node on - sampled)
+            "worlds": [props_cl.world("cl_single_fn", 0, 0, fraction=0.12 if quick else 1.0), props_cl.world("cl_multi_cb", 1, 1, fraction=0.04 if quick else 0.2, fill="0xFF")],
             "nontrivial_key": "scripts",
             "rule": "every transition of the CLImpl model with two CallbackList objects: copy/move construction, copy/move assignment (incl. self), swap "
                     "(incl. self) and destruction interleaved with list operations and invocations; generation counters travel with the nodes",
